@@ -45,6 +45,32 @@ def run_scenario(sc):
     return json.loads(p.stdout.strip().splitlines()[-1])
 
 
+def expand_sym(s, sym):
+    import re
+    s = s.replace(",~", ", ")
+    return re.sub(r"\b([BI]\d+)\b", lambda m: sym[m.group(1)], s)
+
+
+def registry_trace(seed, nops):
+    """one random operation sequence on the REAL registry (fresh subprocess) and on the Lean registry model (driver),
+    compared after every operation: returned object, the whole map in insertion order, every object's owner class,
+    stored name and definition.  Returns None or the first disagreement."""
+    p = subprocess.run([lib.PY, os.path.join(lib.VERIF, "harness", "workers", "w_reg.py"), str(seed), str(nops)],
+                       env=lib.child_env(), capture_output=True, text=True, timeout=600)
+    if p.returncode != 0:
+        raise RuntimeError("registry worker crashed (harness error, not a verdict): " + p.stderr[-1500:])
+    d = json.loads(p.stdout.strip().splitlines()[-1])
+    out = lib.run_driver(d["lines"])
+    kinds = {}
+    for op in d["ops"]:
+        kinds[op.split(" ")[0]] = kinds.get(op.split(" ")[0], 0) + 1
+    for k, (o, e) in enumerate(zip(out, d["obs"])):
+        if expand_sym(o, d["sym"]) != e:
+            return {"seed": seed, "nops": nops, "step": k, "op": d["lines"][k], "history": d["lines"][max(0, k - 6):k + 1],
+                    "model": expand_sym(o, d["sym"])[-600:], "code": e[-600:]}, kinds
+    return None, kinds
+
+
 def run(ctx):
     cc.proof_part(ctx)
     rng = random.Random(ctx.seed)
@@ -63,18 +89,39 @@ def run(ctx):
             ctx.report("isolation broken by definitions %s: %s" % (sc["defs"], r["violations"][0][:300]),
                        {"kind": "registry", "scenario": sc, "violations": r["violations"][:10], "trace": r["trace"]},
                        key="registry:" + lib.digest(sc))
+    # step-by-step correspondence of the registry model (Abnf/Registry.lean, what C10's theorems are about)
+    ntr, nops = ctx.budget(24, 300), ctx.budget(40, 80)
+    with ThreadPoolExecutor(16) as ex:
+        traces = list(ex.map(lambda k: registry_trace(ctx.seed * 1000 + k, nops), range(ntr)))
+    corr_bad = [t for t, _ in traces if t is not None]
+    opkinds = {}
+    for _, kinds in traces:
+        for k, v in kinds.items():
+            opkinds[k] = opkinds.get(k, 0) + v
+    ctx.corr_samples = corr_bad[:5]
+    ctx.coverage["registry_model_correspondence"] = {
+        "traces": ntr, "operations_per_trace": nops, "operation_kinds": opkinds, "disagreements": len(corr_bad),
+        "compared_after_every_operation": "returned object; (class, folded name) -> object map in insertion order; per object: owner class, stored name, str(definition)",
+        "classes": "Rule, ABNFGrammarRule, A(Rule), B(Rule), C(A), scratch S(Rule)"}
     ctx.coverage.update({
-        "evaluations": len(scenarios),
+        "evaluations": len(scenarios) + ntr * nops,
         "distinct_nontrivial": nontrivial,
         "rule": "definition histories through a subclass A (names from core rules, meta-grammar rules and own names, random case, = and =/, via create or load_grammar), "
                 "one fresh subprocess per scenario; behaviour of all core rules (from the base class and from sibling B), all 24 meta rules, grammar loading and sibling B "
                 "is snapshotted before and after; non-trivial = the history defines a name that collides with a core or meta rule",
         "samples": scenarios[:3] + scenarios[len(CORPUS):len(CORPUS) + 2],
     })
-    cc.conclude(ctx, 0, found)
+    cc.conclude(ctx, len(corr_bad), found)
 
 
 def replay(rp):
+    if rp.get("broken") == "correspondence":
+        bad = 0
+        for smp in rp.get("first_disagreements", []):
+            t, _ = registry_trace(smp["seed"], smp["nops"])
+            print(json.dumps(t, indent=1)[:3000])
+            bad += t is not None
+        return 1 if bad else 0
     r = run_scenario(rp["scenario"])
     print(json.dumps(r, indent=1)[:3000])
     return 1 if r["violations"] else 0
